@@ -5,6 +5,7 @@ from __future__ import annotations
 from gc import collect
 from typing import Any, Callable, TypeVar, Union
 
+from .._compat import is_union_type
 from ..converters import BaseConverter
 from ..gen import AttributeOverride, make_dict_structure_fn, make_dict_unstructure_fn
 from ..gen._consts import already_generating
@@ -121,6 +122,7 @@ def _include_subclasses_without_union_strategy(
                 _cl=cl,
                 _base_hook=base_struct_hook,
                 _dis_fn=dis_fn,
+                _nested_dis_fns={},
             ) -> cl:
                 """
                 If val is disambiguated to the class `cl`, use its base hook.
@@ -129,6 +131,15 @@ def _include_subclasses_without_union_strategy(
                 type.
                 """
                 dis_cl = _dis_fn(val)
+                if is_union_type(dis_cl):
+                    # Several classes share the discriminating value; tell them
+                    # apart here, structuring as their union would lead back to
+                    # this hook when `cl` is one of them.
+                    if dis_cl not in _nested_dis_fns:
+                        _nested_dis_fns[dis_cl] = _c._get_dis_func(
+                            dis_cl, overrides=overrides
+                        )
+                    dis_cl = _nested_dis_fns[dis_cl](val)
                 if dis_cl is _cl:
                     return _base_hook(val, _cl)
                 return _c.structure(val, dis_cl)
